@@ -185,7 +185,7 @@ fn line_kind_case(n: usize, seq: &[usize], a: &mut Acc) {
 
 pub fn run() -> i32 {
     let mut r = Report::new("C19");
-    if !cli_available() { r.machinery_errors.push(format!("{} not built", CLI)); return r.finish(); }
+    if !cli_available() { r.machinery_errors.push(format!("{} not built", cli())); return r.finish(); }
     let thorough = r.thorough();
     r.rule = "every generated project (1-2 (3) rule groups x name {empty, word, words with punctuation} x 1-2 rules x description {none, one line, two lines, three lines with an empty one in the middle}; word lists with comments, comment-only and blank lines, multi-word lines; alias files with neither / either / both sections, lines that begin with a named escape `@{..}`, indented and not) serialised to .rsca in every documented layout (indent, blank line between rules, blank line between groups, space after @/#): the real `asca` binary is run in a fresh directory: `run -o` output == asca::run(model), also when the output file already exists and is longer (answer `y`), also with the project given as json (`-j`, with and without `-w`); `conv asca` json == model; json -> `conv json` -> files -> `conv asca` -> json is the identity; running the converted files gives the same words. Plus the .rsca reader as a line state machine: every sequence of <= N line kinds {@name, #desc, blank, rule, indented rule, bare #}: conv asca . conv json . conv asca == conv asca, and agreement with the manual's reading on documented layouts. Non-trivial = comparisons that held.".into();
     let projs = projects(thorough);
